@@ -266,7 +266,7 @@ Theorem hs_named_conserved_refuted :
     hitsound_copy psrc ptgt src tgt = Some out /\ ~ named_conserved src out.
 Proof.
   exists [0;1;2]%nat, [0]%nat, w1_src, w1_tgt.
-  eexists. repeat (match goal with |- _ /\ _ => split end); try (vm_compute; reflexivity).
+  eexists. do 4 (split; [vm_compute; reflexivity|]).
   intro H. apply (msubb_complete atom_eqb) in H. vm_compute in H. discriminate.
 Qed.
 
@@ -281,7 +281,7 @@ Theorem hs_no_invention_refuted :
     hitsound_copy psrc ptgt src tgt = Some out /\ ~ no_invention src out.
 Proof.
   exists [0]%nat, [0;1]%nat, w2_src, w2_tgt.
-  eexists. repeat (match goal with |- _ /\ _ => split end); try (vm_compute; reflexivity).
+  eexists. do 4 (split; [vm_compute; reflexivity|]).
   intros [H _]. apply (msubb_complete atom_eqb) in H. vm_compute in H. discriminate.
 Qed.
 
@@ -295,7 +295,7 @@ Theorem hs_semicolon_refuted :
     hitsound_copy psrc ptgt src tgt = Some out /\ ~ no_invention src out /\ ~ named_conserved src out.
 Proof.
   exists [0]%nat, [0;1]%nat, w3_src, w3_tgt.
-  eexists. repeat (match goal with |- _ /\ _ => split end); try (vm_compute; reflexivity).
+  eexists. do 4 (split; [vm_compute; reflexivity|]). split.
   - intros [H _]. apply (msubb_complete atom_eqb) in H. vm_compute in H. discriminate.
   - intro H. apply (msubb_complete atom_eqb) in H. vm_compute in H. discriminate.
 Qed.
@@ -445,4 +445,73 @@ Proof.
         rewrite (file_loop_fits _ _ off vol Hf) in E2. inversion E2; subst.
         simpl in Eq2. rewrite wfile_pairs_map, Z.max_l in Eq2 by lia.
         rewrite <- (app_nil_r (map _ (group_files g))) in Eq2 at 1. apply app_inv_head in Eq2. subst rest2. auto.
+Qed.
+
+(* ================================================================== the guarded statements, at the level of one time
+   PARTIAL: the three theorems below are the property's guarantees for the sounds of ONE time (all volume groups of
+   that time, any number of target notes at that time), proved for all inputs.  What is NOT proved is their lifting
+   to whole charts, i.e. [no_invention src out], [bounded src tgt out] and [named_conserved src out] for
+   [hitsound_copy psrc ptgt src tgt = Some out] under [wf], [tgt_silent], [no_semicolon] (and [no_multi_overflow]):
+   that needs (a) run_groups touches exactly the rows of each source time, in frame order (apply_at / slots_at
+   locality, distinct group keys from usort), (b) the atoms of the written rows are the atoms of the writes when the
+   target rows are silent, (c) group_by partitions the sorted loud source rows so that group_pairs / total_bit /
+   total_need are the per-(time, volume) counts of the specification ([at_tv], [demand]).  On whole charts the
+   statements are checked by the sound-and-complete oracle [specb] on every generated pair instead. *)
+
+Lemma spare_zero : forall vgs, (forall vg, In vg vgs -> (length (group_files (snd vg)) <= 1)%nat) -> spare vgs = O.
+Proof.
+  induction vgs; intros H; [reflexivity|]. unfold spare in *. simpl.
+  rewrite IHvgs by (intros; apply H; now right). specialize (H a (or_introl eq_refl)). lia.
+Qed.
+
+(* named samples: when everything fits, or no volume group has two named samples, every (file, volume) of the
+   source groups is written on a note or becomes an event sample, and nothing else is *)
+Theorem hs_named_conserved_guarded_partial : forall off vgs free ws ss,
+  (forall vg, In vg vgs -> 0 <= fst vg) ->
+  plan_groups off vgs free = (ws, ss) ->
+  ((total_need vgs <= free)%nat \/ (forall vg, In vg vgs -> (length (group_files (snd vg)) <= 1)%nat)) ->
+  Permutation (group_pairs vgs) (wfile_pairs ws ++ sample_pairs ss).
+Proof.
+  intros off vgs free ws ss Hv H G.
+  destruct (plan_groups_spec _ _ _ _ _ Hv H) as (_ & _ & _ & rest & P & L & F).
+  assert (rest = []) as ->.
+  { destruct G as [G|G]; [now destruct (F G)|]. rewrite (spare_zero _ G) in L. destruct rest; [reflexivity | simpl in L; lia]. }
+  now rewrite !app_nil_r in P.
+Qed.
+
+(* no invention, one time: the files written or sampled are a sub-multiset of the groups' files (with volume), and
+   no more claps / finishes / whistles are written than the groups have *)
+Theorem hs_no_invention_partial : forall off vgs free ws ss,
+  (forall vg, In vg vgs -> 0 <= fst vg) ->
+  plan_groups off vgs free = (ws, ss) ->
+  (exists rest, Permutation (group_pairs vgs) ((wfile_pairs ws ++ sample_pairs ss) ++ rest))
+  /\ (nb 2 ws <= total_bit 2 vgs)%nat /\ (nb 4 ws <= total_bit 4 vgs)%nat /\ (nb 8 ws <= total_bit 8 vgs)%nat.
+Proof.
+  intros off vgs free ws ss Hv H.
+  destruct (plan_groups_spec _ _ _ _ _ Hv H) as (_ & (B2 & B4 & B8) & _ & rest & P & _ & _).
+  split; [exists rest; now rewrite <- app_assoc | auto].
+Qed.
+
+(* as many as the notes can hold, one time: min(need, notes) notes are written; when everything fits every clap,
+   finish and whistle is written and nothing overflows *)
+Theorem hs_bounded_partial : forall off vgs free ws ss,
+  (forall vg, In vg vgs -> 0 <= fst vg) ->
+  plan_groups off vgs free = (ws, ss) ->
+  length ws = Nat.min (total_need vgs) free
+  /\ ((total_need vgs <= free)%nat ->
+      nb 2 ws = total_bit 2 vgs /\ nb 4 ws = total_bit 4 vgs /\ nb 8 ws = total_bit 8 vgs /\ ss = []).
+Proof.
+  intros off vgs free ws ss Hv H.
+  destruct (plan_groups_spec _ _ _ _ _ Hv H) as (L & _ & Fit & rest & _ & _ & F).
+  split; [exact L|]. intro G. destruct (Fit G) as (A & B & C). destruct (F G) as (_ & ->). auto.
+Qed.
+
+(* the defect, at the same level: with three named samples of one volume and one note, one (file, volume) is lost *)
+Theorem hs_slot_rule_loses_refuted :
+  exists off vgs free ws ss, plan_groups off vgs free = (ws, ss)
+    /\ ~ Permutation (group_pairs vgs) (wfile_pairs ws ++ sample_pairs ss).
+Proof.
+  exists 0, [(30, [mkN 0 0 None 0 0 0 0 30 [1]; mkN 0 1 None 0 0 0 0 30 [2]; mkN 0 2 None 0 0 0 0 30 [3]])], 1%nat.
+  eexists. eexists. split; [vm_compute; reflexivity|].
+  intro P. apply Permutation_length in P. vm_compute in P. discriminate.
 Qed.
